@@ -22,6 +22,8 @@ def dc_axioms(h, base, top):
     a, b, i = z3.Ints("dc_a dc_b dc_i")
     k = z3.Const("dc_k", Val)
     T = lambda n: class_id(n)
+    # dict subclasses (DaughtersDict, ...) are copied like dicts
+    is_dict = lambda r: z3.Or([TYP(r) == class_id(c) for c in REG.subclasses_of("dict")])
     f = lambda name, r: z3.Select(h.field_arr(name), r)
     new = z3.And(base <= a, a < top)
     ax = []
@@ -47,6 +49,12 @@ def dc_axioms(h, base, top):
     ax.append(z3.ForAll([a, b, i], z3.Implies(z3.And(DC(a, b), new, z3.Or(TYP(b) == T("list"), TYP(b) == T("tuple")), 0 <= i, i < h.llen(b)),
                                               val_copy(h.lget(a, i), h.lget(b, i))),
                         patterns=[z3.MultiPattern(DC(a, b), h.lget(a, i)), z3.MultiPattern(DC(a, b), h.lget(b, i))]))
+    # ... so an immutable value occurs in the copy of a list as often as in the list
+    from contracts.decay_model import CNT
+    xv = z3.Const("dc_x", Val)
+    ax.append(z3.ForAll([a, b, xv], z3.Implies(z3.And(DC(a, b), new, z3.Or(TYP(b) == T("list"), TYP(b) == T("tuple")), z3.Not(is_ref(xv))),
+                                               CNT(h.lelems(a), h.llen(a), xv) == CNT(h.lelems(b), h.llen(b), xv)),
+                        patterns=[z3.MultiPattern(DC(a, b), CNT(h.lelems(a), h.llen(a), xv))]))
     # Tree / Token
     ax.append(z3.ForAll([a, b], z3.Implies(z3.And(DC(a, b), new, TYP(b) == T("Tree")),
                                            z3.And(f("data", a) == f("data", b), val_copy(f("children", a), f("children", b)))),
@@ -55,12 +63,12 @@ def dc_axioms(h, base, top):
                                            z3.And(f("type", a) == f("type", b), f("value", a) == f("value", b))),
                         patterns=[DC(a, b)]))
     # dicts: same keys in the same order, values copied
-    ax.append(z3.ForAll([a, b], z3.Implies(z3.And(DC(a, b), new, TYP(b) == T("dict")),
+    ax.append(z3.ForAll([a, b], z3.Implies(z3.And(DC(a, b), new, is_dict(b)),
                                            z3.And(h.dlen(a) == h.dlen(b), h.dkeys(a) == h.dkeys(b),
                                                   z3.Select(h.arr["dhas"], a) == z3.Select(h.arr["dhas"], b),
                                                   z3.Select(h.arr["didx"], a) == z3.Select(h.arr["didx"], b))),
                         patterns=[DC(a, b)]))
-    ax.append(z3.ForAll([a, b, k], z3.Implies(z3.And(DC(a, b), new, TYP(b) == T("dict"), h.dhas(b, k)), val_copy(h.dget(a, k), h.dget(b, k))),
+    ax.append(z3.ForAll([a, b, k], z3.Implies(z3.And(DC(a, b), new, is_dict(b), h.dhas(b, k)), val_copy(h.dget(a, k), h.dget(b, k))),
                         patterns=[z3.MultiPattern(DC(a, b), h.dget(a, k)), z3.MultiPattern(DC(a, b), h.dget(b, k))]))
     return ax
 
@@ -93,7 +101,9 @@ def deepcopy(eng, s, args, kwargs):
     v = new.lget(a, i)
     s.assume(z3.ForAll([a, i], z3.Implies(z3.And(base <= a, a < new.alloc, is_ref(v)), z3.And(get_ref(v) >= 0, get_ref(v) < new.alloc)),
                        patterns=[v]))
-    res = fresh("deepcopy", Val)
+    # the copy of the root is the first object of the interval (which of the new objects is allocated first is not
+    # observable): its reference is a concrete allocation key
+    res = VRef(base) if x.ty is not None or smt.is_true(is_ref(x.t)) else fresh("deepcopy", Val)
     # everything reachable from a deep copy is part of the copy (immutable values apart)
     rr = z3.Int("dcr_r")
     s.assume(z3.ForAll([rr], z3.Implies(REACH(get_ref(res), rr), z3.And(base <= rr, rr < new.alloc)), patterns=[REACH(get_ref(res), rr)]))
